@@ -2,12 +2,14 @@ import P2PVerif.Driver.Core
 import P2PVerif.Driver.Mux
 import P2PVerif.Driver.Cache
 import P2PVerif.Driver.DHT
+import P2PVerif.Driver.Key
 open P2PVerif.Driver
 
 def streams : List (String × Stream) := [
   ("mux", muxStream),
   ("cache", cacheStream),
-  ("dht", dhtStream)
+  ("dht", dhtStream),
+  ("key", keyStream)
 ]
 
 def main (args : List String) : IO UInt32 := do
